@@ -1192,6 +1192,13 @@ func (vx *Vaxis) QueryColor(c Color) Color {
 	if len(p) != 1 {
 		return Color(0)
 	}
+	// Drop a reply nobody asked for (unsolicited or repeated): it
+	// would be taken for the answer to this query, and every later
+	// answer for the one before it
+	select {
+	case <-vx.chColor:
+	default:
+	}
 	vx.tw.WriteStringLocked(tparm(osc4, p[0]))
 	resp := <-vx.chColor
 	var r, g, b int
@@ -1216,6 +1223,11 @@ func (vx *Vaxis) QueryForeground() Color {
 	if !vx.CanReportForegroundColor() {
 		return Color(0)
 	}
+	// Similar to QueryColor above.
+	select {
+	case <-vx.chFg:
+	default:
+	}
 	vx.tw.WriteStringLocked(osc10)
 	resp := <-vx.chFg
 	var r, g, b int
@@ -1235,6 +1247,11 @@ func (vx *Vaxis) QueryForeground() Color {
 func (vx *Vaxis) QueryBackground() Color {
 	if !vx.CanReportBackgroundColor() {
 		return Color(0)
+	}
+	// Similar to QueryColor above.
+	select {
+	case <-vx.chBg:
+	default:
 	}
 	vx.tw.WriteStringLocked(osc11)
 	resp := <-vx.chBg
